@@ -232,6 +232,42 @@ func runC13(c *Ctx, r *Report) {
 				rewritten[fld] = true
 			}
 		}
+		// a helper that applies Modify to every element of the list it is given
+		eachInstr(modify, func(in ssa.Instruction) {
+			hc, ok := in.(*ssa.Call)
+			if !ok {
+				return
+			}
+			callee := hc.Common().StaticCallee()
+			if callee == nil || callee == modify || !isModuleSSA(callee) || callee.Blocks == nil || len(callee.Params) == 0 || len(hc.Common().Args) == 0 {
+				return
+			}
+			applies := false
+			for _, ic := range callsIn(callee, c.Fn("ast", "Modify")) {
+				v := ic.Common().Args[0]
+				for i := 0; i < 6 && v != nil; i++ {
+					switch x := v.(type) {
+					case *ssa.UnOp:
+						v = x.X
+					case *ssa.IndexAddr:
+						v = x.X
+					case *ssa.MakeInterface:
+						v = x.X
+					default:
+						i = 6
+					}
+				}
+				if v == ssa.Value(callee.Params[0]) {
+					applies = true
+				}
+			}
+			if !applies {
+				return
+			}
+			if fld := fromField(hc.Common().Args[0], 0); fld >= 0 {
+				rewritten[fld] = true
+			}
+		})
 		for f := 0; f < st.NumFields(); f++ {
 			if !isChildField(st.Field(f).Type()) {
 				continue
